@@ -122,23 +122,29 @@ def run(tier: str) -> int:
     h = c15.header_shapes(wd, rep, K=b["hK"], tier=tier)
     log(f"[C14] H header shapes: {h['automata']} automata, {h['states']} states, {h['replayed']} sequences replayed, {t.s()}s")
 
+    # ---- N: the header search above find_all (get_headers: candidates, followed_by, nested search) -----
+    from .. import nested
+
+    n = nested.run(wd, rep, tier, t)
+
     rc = rep.finish()
     si = [0, len(cases) // 3, len(cases) - 1]
     evidence.write(
         PROP, tier, level="model_checking", wall_s=t.s(), violations=rep.n_violations,
         coverage={
-            "states": m.distinct + g.distinct + h["states"],
-            "transitions": m.transitions + g.transitions + h["transitions"],
-            "traces_validated_against_impl": len(cases) + len(rcases) + h["replayed"],
+            "states": m.distinct + g.distinct + h["states"] + n["states"],
+            "transitions": m.transitions + g.transitions + h["transitions"] + n["transitions"],
+            "traces_validated_against_impl": len(cases) + len(rcases) + h["replayed"] + n["replayed"],
             "exhaustive": True,
             "samples": [{"pattern": show(cases[i][0]), "word": list(cases[i][1]), "SearchRef": refs[i], "find_all": results[i][1]["ms"] if results[i][0] == "ok" else list(results[i])} for i in si]
-            + h["samples"],
+            + h["samples"] + n["samples"],
             "bounds": {"model": {"alphabet": b["sigma"], "max_items": b["N"], "max_word": b["K"]}, "replay": {"alphabet": b["gsigma"], "max_items": b["gN"], "max_word": b["gK"]},
                        "random": {"patterns": len(rcases) // 4, "items": "4..9", "word": "0..10"}, "header_sequences_max_len": b["hK"]},
             "model": {"module": "FindAll.tla", "invariants": invs, "distinct_states": m.distinct, "violated": [list(x) for x in m.violated], "actions": m.coverage},
             "generator": {"module": "RegexCases.tla", "replayed": len(cases), "differ_from_reference_result": len(differ)},
             "acceptor": {"module": "MatcherTrace.tla", "events": len(events), "rejected": len(rejected)},
             "header_shapes": h["detail"],
+            "nested_header_search": n["detail"],
             "model_drift": rep.drift,
             "known_findings_hit": sorted(rep.known),
         },
@@ -155,6 +161,16 @@ def replay(path: str) -> int:
         from . import c15
 
         return c15.replay_header(path, PROP)
+    if case.get("kind") == "headers":
+        from .. import nested
+
+        rej = nested.replay_case(workdir(PROP, "replay"), case)
+        if rej:
+            print(f"VIOLATION property={PROP} replay={path}")
+            print("rejected clause:", rej[0])
+            return 1
+        print("accepted by NestedSearchTrace.tla")
+        return 0
     re_, w = from_json(case["re"]), tuple(case["w"])
     res = guarded(observe, (re_, w), 20)
     print("pattern:", show(re_), " word:", " ".join(w))
